@@ -45,6 +45,7 @@ AlphaRich == {
     L(<<98, 101, 103, 105, 110, 32, 110, 117, 108, 108>>),   \* 'begin null'
     L(<<98, 101, 103, 105, 110, 32, 65>>),               \* 'begin A'
     L(<<101, 110, 100>>),                                \* 'end'
+    L(<<37, 112, 114, 101, 112, 114, 111, 99, 32, 99, 97, 116>>),    \* '%preproc cat'  (outside the universe: spawns)
     L(<<103, 97, 109, 109, 97>>) }                       \* 'gamma'
 AlphaMid == AlphaInc \cup {Inc(3), L(<<115, 107, 105, 112, 109, 101>>)}
 
@@ -72,17 +73,17 @@ Families(nest, chain, regs) ==
     \cup {Cfg("reg", 0, "many", n, nm, <<"ok">>, <<0>>, "none") : n \in regs, nm \in {"first", "last"}}
     \cup {Cfg("enum", 0, "A", 0, "first", <<k>>, <<0>>, "base") : k \in {"missing", "badmagic", "empty"}}
 
-ConfigsQuick ==
+ConfigsQuickEnum ==
     {Cfg("enum", 0, "A", 0, "first", <<"ok", "ok">>, <<5, 2>>, "base")}
     \cup EnumAll(3, 2)
     \cup {Cfg("enum", 0, "AB", 0, "first", K5, <<2, 1, 0, 0, 0>>, "rich")}
-    \cup Families(NestNs, ChainNs, RegNs)
-ConfigsThorough ==
+ConfigsQuickFam == Families(NestNs, ChainNs, RegNs)
+ConfigsThoroughEnum ==
     {Cfg("enum", 0, "A", 0, "first", <<"ok", "ok">>, <<6, 2>>, "base")}
     \cup {Cfg("enum", 0, "AB", 0, "first", <<"ok", "ok", "ok">>, <<4, 2, 1>>, "deep")}
     \cup EnumAll(4, 2)
     \cup {Cfg("enum", 0, "AB", 0, nm, K5, <<3, 1, 0, 0, 0>>, "rich") : nm \in {"first", "builtin"}}
-    \cup Families(1 .. 255, 1 .. 254, 2 .. 255)
+ConfigsThoroughFam == Families(1 .. 255, 1 .. 254, 2 .. 255)
 \* the pinned mechanism (CapMod = 256): TLC must find the capacity wrap by itself
 ConfigsAsBuilt == {Fam("nest", 161), Fam("chain", 161), Cfg("reg", 0, "many", 161, "first", <<"ok">>, <<0>>, "none")}
 
